@@ -316,6 +316,7 @@ func rearrangements(ms []gen.ArmMember) (out [][]gen.ArmMember, descs []string) 
 
 func Run(r *mc.Run) {
 	r.Rule = "inputs are enumerated, never sampled: per base archive every set of <= k corrupted header columns (one value per decision class per column), every truncation point, every duplication / removal / permutation of members, every string of length <= 3 over {! ` \\n 0 blank} at five placements, every listed debian-binary content; each input is run under both ReaderAt conventions and (for .deb bases) through deb.Load as well, each twice; states = distinct (bytes, convention, entry point); non-trivial = the library-independent reference walk finds an anomaly in the bytes (histogram 'input: ...')"
+	r.Extra["map_orders"] = MapOrderNote
 	r.Assume = []string{
 		"oracle = the invariants of the statement only (no panic; <= floor(len/60)+1 members, then io.EOF or an error; every member from a header with the two magic bytes, Size >= 0, Data delivers exactly Size bytes; same outcome on a second run); which inputs are accepted or rejected is not judged",
 		"header offset of a returned member = base offset of its SectionReader (Data.Outer) - 60",
